@@ -363,9 +363,8 @@ def NoUnmatchedDuplicate (lk rk : Tuple → Cell) (ok : Tuple → Tuple → Bool
     (∃ r ∈ right, ok a r = true) ∨ (∀ r ∈ right, ccmp (lk a) (rk r) ≠ 0)
 
 /-- **not proved** (kept as the statement of the partial claim): under `NoUnmatchedDuplicate` the LEFT OUTER
-merge join is a permutation of the left outer nested-loop join.  (Proved so far: `left_merge_join_unique_eq_spec` — machine = functional specification for pairwise
-different left keys; still open: `leftSpec` is a permutation of the left outer nested-loop join for sorted inputs
-(the analogue of `merge_join_eq_nlj`), and left-key duplicates whose first row has an accepted match.) -/
+merge join is a permutation of the left outer nested-loop join.  (Proved: `left_merge_join_unique` — the statement for strictly increasing left keys; still open: left-key
+duplicates whose first row has an accepted match or no right row with that key, i.e. the `llCmp == 0` buffer re-use branch.) -/
 def left_merge_join_partial_full : Prop :=
   ∀ (lk rk : Tuple → Cell) (extra : Tuple → Tuple → Bool) (left right : List Tuple),
     SortedBy lk left → SortedBy rk right → NoUnmatchedDuplicate lk rk (okWith lk rk extra) left right →
@@ -385,6 +384,20 @@ theorem left_merge_join_unique_eq_spec (lk rk : Tuple → Cell) (ok : Tuple → 
   left_machine_eq_spec lk rk ok left right hd g n hg hn
 
 example : DistinctKeys headCell [[some 1, some 1], [some 2, some 2], [some 5, some 4]] := by unfold DistinctKeys; decide
+
+/-- **`left_merge_join_unique`** — for left inputs with strictly increasing join keys (no two left rows
+share a key: the defect's precondition cannot arise) and a right input sorted on its key, the LEFT
+OUTER merge join state machine — all rows returned by `Next` until EOF, with the model's own call
+budget — is a permutation of the left outer nested-loop join: every left row appears with each of
+its accepted matches (right-side duplicates included), or exactly once NULL-extended; NULL keys never
+match; any extra join filter.  (`left_merge_join_unique_eq_spec` + `leftSpec_perm`.) -/
+theorem left_merge_join_unique (lk rk : Tuple → Cell) (extra : Tuple → Tuple → Bool) (left right : List Tuple)
+    (hL : StrictBy lk left) (hR : SortedBy rk right) :
+    (leftMergeJoin lk rk (okWith lk rk extra) left right).Perm (leftNlj (okWith lk rk extra) left right) :=
+  left_machine_perm lk rk extra left right hL hR
+
+example : StrictBy headCell [[none, some 0], [some 1, some 1], [some 2, some 2], [some 5, some 4]] := by
+  unfold StrictBy; decide
 
 /-- the witness violates the hypothesis (it must) -/
 example : ¬ NoUnmatchedDuplicate headCell headCell (okWith headCell headCell witExtra) witL witR := by
